@@ -159,7 +159,7 @@ PROPS['C12'] = dict(
         K('poulpy-cpu-ref', 'hal_defaults::scratch::verif_kani', ['c12_take_slice_aligned_contract', 'c12_take_slice_aligned_panics_iff_too_small',
           'c12_take_slice_default_u8', 'c12_take_slice_default_i64', 'c12_take_slice_default_f64', 'c12_take_slice_default_i128'], cls='complete', timeout=600,
           functions=['hal_defaults::scratch::take_slice_aligned', 'HalScratchDefaults::take_slice_default', 'HalScratchDefaults::scratch_available_default', 'HalScratchDefaults::scratch_from_bytes_default']),
-        V('vec_znx_ring'), V('vec_znx_normalize'), V('hal_glue'), V('hal_delegates'), V('vmp_fft64'), V('vmp_ntt120'), V('glwe_ops'), V('core_keyswitch'), V('core_extprod'), V('core_mul'), V('core_lwe_ksk'), V('core_relin'), V('core_trace'), V('core_lwe_to_glwe'), V('core_packing', lemmas=['lemma_merge_both', 'lemma_merge_lo', 'lemma_merge_hi']), V('bdd_blind_rotation_block', lemmas=['lemma_or_ge', 'lemma_div_lt']), V('core_ggsw_expand'), V('bdd_blind_rotation'), V('core_encrypt_pk'), V('core_lwe_encrypt'), V('bdd_cmux'), V('core_decrypt'),
+        V('vec_znx_ring'), V('vec_znx_normalize'), V('hal_glue'), V('hal_delegates'), V('vmp_fft64'), V('vmp_ntt120'), V('glwe_ops'), V('core_keyswitch'), V('core_extprod'), V('core_mul'), V('core_lwe_ksk'), V('core_relin'), V('core_trace'), V('core_lwe_to_glwe'), V('core_packing', lemmas=['lemma_merge_both', 'lemma_merge_lo', 'lemma_merge_hi']), V('bdd_blind_rotation_block', lemmas=['lemma_or_ge', 'lemma_div_lt']), V('ckks_mul_const'), V('core_ggsw_expand'), V('bdd_blind_rotation'), V('core_encrypt_pk'), V('core_lwe_encrypt'), V('bdd_cmux'), V('core_decrypt'),
         K('poulpy-cpu-ref', 'verif_kani::c12_window', [f'c12_window_{op}__n4' for op in ('normalize_assign', 'rotate_assign', 'automorphism_assign', 'mul_xp_minus_one_assign', 'lsh_assign', 'rsh_assign')],
           cls='bounded', timeout=1200, bound='N=4 (limb byte size 32: not a multiple of the 64-byte alignment), size 2',
           functions=['HAL traits VecZnx{Normalize,Rotate,Automorphism,MulXpMinusOne,Lsh,Rsh}Assign with a scratch of exactly the companion *_tmp_bytes; two runs with different scratch contents']),
@@ -226,6 +226,7 @@ PROPS['C18'] = dict(
     level_text='Complete in the header domain (2^320 headers) for a receiver of fixed capacity: no panic/overflow/OOB on any path, Ok implies size <= max_size and n*cols*max_size*8 <= buffer and fields equal the header, Err leaves metadata unchanged; every truncation point of a valid stream is rejected.',
     level_note='Receiver capacity fixed at 32 bytes (the code is capacity-generic); round trip is bounded in shape (thorough tier); GLWE/LWE/GLWECompressed and the compound wrappers GGLWE, GGSW, GLWESwitchingKey, GLWEAutomorphismKey, GLWEPublicKey, GGLWECompressed are covered for truncation at one concrete shape each (the wrapper code is shape-generic: straight-line field reads around the inner read); tensor/LWE-switching keys delegate to these; the multi-key containers of poulpy-bin-fhe are not covered.',
     units=[
+        V('ser_gglwe_compressed'),
         K('poulpy-hal', 'layouts::vec_znx::verif_kani', ['c18_vec_znx_read_header', 'c18_vec_znx_read_truncated'], cls='complete', timeout=1500,
           functions=['<VecZnx as ReaderFrom>::read_from']),
         K('poulpy-hal', 'layouts::scalar_znx::verif_kani', ['c18_scalar_znx_read_header', 'c18_scalar_znx_read_truncated'], cls='complete', timeout=900,
@@ -267,7 +268,7 @@ PROPS['C03'] = dict(
     level_text='Unbounded proof: mod_exp_u64(x,e) == x^e mod 2^64 for all x,e; galois_element follows the sign convention and equals 5^|k| mod 2N; galois_element_inv(g)*g == 1 mod 2N for every odd g and every power-of-two order <= 2^33. Key-switching glue, for EVERY digit size, digit count, rank, limb count and input/key/output radix admitted by the API: no panic (every set_size within capacity, no underflow in the digit-group limb counts, every inner scratch assertion holds with exactly the advertised bytes), no stale scratch or result bytes reach the output (the accumulator must be cleared: for dsize >= 3 its last limbs are only added to), and every coefficient-domain vector folded into the key-switch accumulator is expressed in the key radix (the re-normalised copy, not the original operand, in the cross-radix branch).',
     level_note='Ring packing: each pairwise merge (pack_internal of glwe_pack, combine of the on-the-fly packer) produces, for EVERY presence pattern of its two operands, the one documented formula a/2 + (b/2)X^t + phi(a/2 - (b/2)X^t) over abstract plaintext values (module axioms + the level identity phi(xX^t) = -X^t phi(x) as precondition; GLWE operation values trusted). The glue statements are about which inputs reach the output and in which radix, not about values: that the gadget product decrypts to the expected image within the noise bound needs exact DFT products (C07) and is undecided, as are trace / packing / LWE conversion semantics and the sub / sub_negate / assign variants of the automorphism (same structure, not yet extracted).',
     units=[V('galois', lemmas=['lemma_odd_pow', 'lemma_galois_inverse']), V('core_keyswitch'), V('core_lwe_ksk'), V('core_trace'), V('core_lwe_to_glwe'),
-           V('core_packing', lemmas=['lemma_merge_both', 'lemma_merge_lo', 'lemma_merge_hi', 'lemma_neg_add']),
+           V('core_packing', lemmas=['lemma_merge_both', 'lemma_merge_lo', 'lemma_merge_hi', 'lemma_neg_add']), V('core_sample_extract'),
            K('poulpy-cpu-ref', 'verif_kani', ['c03_mask_mod_u64'], cls='complete', timeout=300, functions=['leaf fact x & (m-1) == x mod m (u64)'])],
     trusted_base=VERUS_TRUST + CORE_TRUST + ['assumed specifications of i64::unsigned_abs, i64::signum, u64::is_power_of_two',
                   'A-AUT: none needed after fix cfd9678 (glwe_automorphism_tmp_bytes now adds the big-accumulator automorphism / normalisation bytes)',
@@ -302,7 +303,7 @@ PROPS['C19'] = dict(
     technique='Verus contracts on the real text of GLWEDecompress::decompress_glwe, vec_znx_fill_uniform_ref, znx_fill_uniform_ref and Source::next_u64n (the stream is an uninterpreted function of (seed, word index)); Kani bounded contract check of the same decompression with the stream abstracted to a symbolic tape',
     level_text='Unbounded (every ring degree, rank, limb count, radix 1..=63): after decompression column 0 is the stored body (limbs beyond the stored size zero), and coefficient k of limb j of mask column i is the balanced digit of word ((i-1)*size + j)*N + k of the stream seeded by the stored seed -- columns 1..rank, limb-major, in order on ONE stream, exactly one word per coefficient (the rejection loop of next_u64n never iterates for a power-of-two bound); nothing else is written. Bounded (Kani, N = 2, (rank, size) in {(2,2), (3,1)}): the same order statement by executing the real code on a symbolic tape.',
     level_note='That the ENCRYPTION side (glwe_encrypt_sk_internal) fills its mask columns in the same order from the same stream is read off the source (a `(1..cols)` loop of vec_znx_fill_uniform on source_xa), not proved; body equality needs the DFT and is undecided; GGLWE/GGSW/key decompression (loops over this routine) and serialisation after compression are not covered.',
-    units=[V('sampling'), V('core_encrypt'), V('core_secret_tensor', lemmas=['lemma_slot_injective', 'lemma_slot_range', 'c19_tensor_prepare_slot', 'c19_tensor_prepare_ranges', 'c19_tensor_prepare_inner_range']),
+    units=[V('sampling'), V('core_encrypt'), V('ser_gglwe_compressed'), V('core_secret_tensor', lemmas=['lemma_slot_injective', 'lemma_slot_range', 'c19_tensor_prepare_slot', 'c19_tensor_prepare_ranges', 'c19_tensor_prepare_inner_range']),
            K('poulpy-cpu-ref', 'verif_kani', ['c19_glwe_decompress_mask_order__n2_rank2_size2', 'c19_glwe_decompress_mask_order__n2_rank3_size1'], cls='bounded', timeout=1500,
              bound='N=2, (rank, size) in {(2,2), (3,1)}', functions=['GLWEDecompress::decompress_glwe', 'vec_znx_fill_uniform_ref', 'VecZnx::fill_uniform'])],
     trusted_base=VERUS_TRUST + [FMT_STUB, 'Source reduced to (seed, words drawn); next_u64 returns draw(seed, pos) and advances by one (ChaCha8 itself uninterpreted)', 'I-GLWE / I-NEWTYPE preludes; SetLWEInfos::set_base2k changes only the radix (restated)'],
